@@ -502,7 +502,7 @@ class Scripts:
             self.emit('env chip l 0x24 0')
             self.emit('lora_reset_fifo')
             implicit = None
-            self.emit('set_opmod 5 0x80')
+            self.emit('set_opmod %d 0x80' % r.choice([5, 5, 6]))
             for _ in range(r.randint(1, 8)):
                 c = r.random()
                 if c < 0.15:
@@ -538,7 +538,7 @@ class Scripts:
                     self.emit('set_opmod 0 %d' % fm)
                     self.emit('write_register 0x3f 0x10')
                     self.emit('set_opmod 0 0x80')
-                    self.emit('set_opmod 5 0x80')
+                    self.emit('set_opmod %d 0x80' % r.choice([5, 6]))
                 n_b = implicit if implicit else r.choice([1, 2, 3, 64, 255, r.randint(1, 255)])
                 if implicit and r.random() < 0.9:
                     # in implicit-header mode the chip reports the configured length in RxNbBytes
@@ -547,7 +547,7 @@ class Scripts:
                 crcerr = r.random() < 0.25
                 data = self.api.bytes_hex(n_b)
                 self.emit('env lorarx %d %d %s' % (start, 1 if crcerr else 0, data))
-                extra = r.choice([0, 0, 0, 0x80, 0x02, 0x08, 0x01])
+                extra = r.choice([0, 0, 0, 0x80, 0x80, 0x02, 0x08, 0x01, 0x90])
                 if extra:
                     self.emit('env loraflags %d' % extra)
                 self.emit('irq')
@@ -716,7 +716,7 @@ class Scripts:
                 elif c < 0.4:
                     self.emit(r.choice(['lora_set_implicit_header NULL', 'lora_tx_set_explicit_header 1 2']))
                     st['implicit'] = None
-                self.emit('set_opmod 5 0x80')
+                self.emit('set_opmod %d 0x80' % r.choice([5, 6]))
                 if abandon:
                     return
                 for _ in range(r.randint(1, 3)):
@@ -724,6 +724,9 @@ class Scripts:
                     crcerr = r.random() < 0.2
                     data = self.api.bytes_hex(n_b)
                     self.emit('env lorarx %d %d %s' % (r.choice([0, 255, r.randint(0, 255)]), 1 if crcerr else 0, data))
+                    if r.random() < 0.3:
+                        # a timeout / valid-header flag of an earlier attempt that nobody serviced
+                        self.emit('env loraflags %d' % r.choice([0x80, 0x10, 0x90]))
                     self.emit('irq')
                     self.emit('#= lorarx %d %s' % (1 if crcerr else 0, data))
 
@@ -1517,6 +1520,80 @@ class Scripts:
                     self.emit('fsk_ook_tx_stop_beacon')
                     self.emit('dump')
 
+    def beacon_stale(self, n):
+        """C14, payload clause: the beacon is started while the handle still holds the progress of an
+        abandoned frame (or is in receive mode), and the handler runs before the first beacon is out"""
+        r = self.rnd
+        for _ in range(n):
+            mod = r.choice([FSK, OOK])
+            self.begin('beaconstale', 'mod=%x' % mod)
+            self.prologue(mod, rand_chip=r.random() < 0.5)
+            self.emit('fsk_ook_set_packet_format 0 %d' % r.choice([200, 255, 100]))
+            kind = r.choice(['tx', 'rx', 'clean'])
+            if kind == 'tx':
+                self.emit('write_register 0x3f 0x10')
+                self.emit('fsk_ook_tx_set_for_transmission %s' % self.api.bytes_hex(100))
+                self.emit('set_opmod 3 %d' % mod)
+            elif kind == 'rx':
+                self.emit('set_opmod 5 %d' % mod)
+            n_b = r.choice([1, 8, 31, 32, 40, 64, r.randint(1, 64)])
+            data = self.api.bytes_hex(n_b)
+            self.emit('fsk_ook_set_packet_format 0 %d' % n_b)
+            self.emit('fsk_ook_tx_start_beacon %s %d' % (data, r.choice([15, 1000, 5000, 70000])))
+            self.emit('dump')
+            self.emit('#= beaconfifo %s' % data)
+            # FIFO-level interrupts that were pending or fire now
+            for _ in range(r.randint(1, 2)):
+                self.emit('irq')
+            self.emit('dump')
+            self.emit('#= beaconfifo %s' % data)
+            self.emit('fsk_ook_tx_stop_beacon')
+            self.emit('dump')
+            self.emit('#= beaconfifo -')
+
+    def setter_seqs(self, n):
+        """C09 on a warm cache: sequences of configuration calls within one modem (no RegOpMode write
+        in between, so whatever an earlier call left in the cache is what a later one builds on); the
+        register file is dumped after every call"""
+        r = self.rnd
+        skip = {'set_opmod', 'create', 'handle_interrupt', 'irq', 'fsk_ook_tx_start_beacon', 'fsk_ook_tx_stop_beacon',
+                'fsk_ook_rx_calibrate', 'lora_tx_set_for_transmission', 'fsk_ook_tx_set_for_transmission',
+                'fsk_ook_tx_set_for_transmission_with_address', 'write_register', 'read_register', 'dump_registers'}
+        for _ in range(n):
+            mod = r.choice(MODS)
+            self.begin('setseq', 'mod=%x' % mod)
+            self.prologue(mod, rand_chip=r.random() < 0.7)
+            if mod == LORA:
+                self.emit('lora_set_implicit_header 8 1 2')
+            names = [x for x in self.api.names_for(mod) if x not in skip and 'callback' not in x and 'get_' not in x]
+            group = r.sample(names, min(len(names), r.randint(2, 5)))
+            for _ in range(r.randint(4, 14)):
+                self.emit(self.api.call(r.choice(group), valid_bias=1.0))
+                self.emit('dump')
+
+    def setter_pairs(self):
+        """C09 on a warm cache, systematically: for every ordered pair (f, g) of configuration functions of
+        a modem the sequence g, f, g' - what f leaves in the cache is what g' builds on"""
+        r = self.rnd
+        skip = {'set_opmod', 'create', 'handle_interrupt', 'irq', 'fsk_ook_tx_start_beacon', 'fsk_ook_tx_stop_beacon',
+                'fsk_ook_rx_calibrate', 'lora_tx_set_for_transmission', 'fsk_ook_tx_set_for_transmission',
+                'fsk_ook_tx_set_for_transmission_with_address', 'write_register', 'read_register', 'dump_registers'}
+        for mod in MODS:
+            names = sorted(x for x in self.api.names_for(mod) if x not in skip and 'callback' not in x and 'get_' not in x)
+            for f in names:
+                self.begin('setpair', '%s mod=%x' % (f, mod))
+                for g in names:
+                    self.emit('env chiprand %d' % r.randint(1, 2**31))
+                    self.emit('create')
+                    self.emit('set_opmod 1 %d' % mod)
+                    if mod == LORA:
+                        self.emit('lora_set_implicit_header 8 1 2')
+                    self.emit(self.api.call(g, valid_bias=1.0))
+                    self.emit(self.api.call(f, valid_bias=1.0))
+                    self.emit('dump')
+                    self.emit(self.api.call(g, valid_bias=1.0))
+                    self.emit('dump')
+
     def faults(self, n):
         """C11: a failure at each transfer index of each call, then fault-free traffic"""
         r = self.rnd
@@ -1556,6 +1633,39 @@ class Scripts:
                     self.emit('irq')
                     self.emit('#= lorarx 0 %s' % data)
             self.emit('dump')
+
+    def modem_switch_fault(self, n):
+        """C11, cache clause: registers of one modem's page are cached, the RegOpMode write of the switch
+        to the other modem fails once (or an earlier transfer of set_opmod does), the application retries,
+        then configures the other modem with read-modify-write setters"""
+        r = self.rnd
+        WARM = {LORA: ['lora_set_ppm_offset 4000', 'lora_set_modem_config_2 0x90', 'rx_set_lna_gain 0x20', 'lora_set_bandwidth 0x70',
+                       'lora_set_syncword 18', 'set_preamble_length 8', 'lora_set_low_datarate_optimization 1'],
+                FSK: ['set_preamble_length 300', 'fsk_ook_set_syncword 12ad', 'fsk_ook_set_packet_format 0x80 255', 'fsk_ook_set_preamble_type 1',
+                      'fsk_ook_set_crc 24', 'rx_set_lna_gain 0x20', 'fsk_ook_rx_set_afc_auto 1', 'fsk_ook_set_address_filtering 2 17 255']}
+        WARM[OOK] = WARM[FSK]
+        for _ in range(n):
+            a = r.choice(MODS)
+            b = r.choice([m for m in MODS if (m == LORA) != (a == LORA)])
+            self.begin('switchfault', '%x->%x' % (a, b))
+            self.prologue(a, rand_chip=r.random() < 0.7)
+            if a == LORA:
+                self.emit('set_frequency 868100000')
+                self.emit('lora_set_implicit_header 8 1 2')
+            for l in r.sample(WARM[a], r.randint(2, 5)):
+                self.emit(l)
+            self.emit('set_opmod 0 %d' % a)
+            c = r.choice([1, 0x101, 0x107])
+            target = r.choice([0, 0, 1, 5])
+            for _ in range(r.randint(1, 2)):
+                self.emit('set_opmod %d %d !%d=%d' % (target, b, r.choice([0, 0, 1, 2]), c))
+            self.emit('set_opmod 0 %d' % b)
+            self.emit('set_opmod 1 %d' % b)
+            if b == LORA:
+                self.emit('lora_set_implicit_header 8 1 2')
+            for l in r.sample(WARM[b], r.randint(2, 5)):
+                self.emit(l)
+                self.emit('dump')
 
     def two_byte(self):
         """helper-level enumeration of the cache paths: every register address x single and
